@@ -98,6 +98,7 @@ class Parity:
         self.even_attr_bases = set(even_attr_bases)
         self.res = Result()
         self.ver = {}
+        self.break_states = []
 
     # ------------------------------------------------------------------ expressions
     def ev(self, n, env):
@@ -288,6 +289,12 @@ class Parity:
             return None
         if isinstance(st, (ast.Pass, ast.Expr, ast.Assert, ast.Import, ast.ImportFrom)):
             return env
+        if isinstance(st, (ast.Break, ast.Continue)):
+            # taken under a condition whose evenness the enclosing `if` has checked: run and mirror image leave the loop
+            # (or skip the rest of the body) together; the state at that point is joined at the loop exit by fix()
+            self.res.breaks = getattr(self.res, "breaks", 0) + 1
+            self.break_states.append(dict(env))
+            return None
         if isinstance(st, ast.If):
             c = self.cond(st.test, env)
             if c == "even":
@@ -392,6 +399,14 @@ class Parity:
             if not changed:
                 break
         out = dict(head)
+        for bs in self.break_states:
+            for k in set(out) | set(bs):
+                a_, b_ = out.get(k), bs.get(k)
+                if a_ is None or b_ is None:
+                    out[k] = a_ or b_
+                elif not isinstance(a_, tuple) and not isinstance(b_, tuple):
+                    out[k] = join(a_, b_)
+        self.break_states = []
         if entry is not None:
             for k in set(out) | set(entry):
                 a, b = out.get(k), entry.get(k)
